@@ -37,6 +37,7 @@ type World struct {
 	// initialisers would set
 	initStores map[*ssa.Global]bool
 	pureInitOf map[*ssa.Package]*ssa.Function // initialisers of whitelisted pure packages, run on first use of one of their variables
+	usesSync   bool                           // the library calls sync (other than Pool) or sync/atomic: lockset tracking is on
 }
 
 func (w *World) short(fn *ssa.Function) string {
@@ -69,20 +70,21 @@ type Interp struct {
 	stack       []*Frame
 	funcsRun    map[string]int
 
-	emits   []Emit
-	reach   map[string]bool
-	viols   []Violation
-	orderMode string // "", "fwdrev", "all"
-	orderDev  bool   // a non-default iteration order was taken on this path
-	rangeCount int
-	releasedUse bool
-	libDepth    int
-	poolMonitor bool // use-after-Put is a violation (C13, C14)
+	emits           []Emit
+	reach           map[string]bool
+	viols           []Violation
+	orderMode       string // "", "fwdrev", "all"
+	orderDev        bool   // a non-default iteration order was taken on this path
+	rangeCount      int
+	releasedUse     bool
+	libDepth        int
+	poolMonitor     bool // use-after-Put is a violation (C13, C14)
 	runningPureInit bool
 	pureDone        map[*ssa.Package]bool
-	pools       map[*Val][]Val
-	ifConverted int
-	noIfConv    bool
+	pools           map[*Val][]Val
+	poolChoices     int
+	ifConverted     int
+	noIfConv        bool
 
 	initMark     int
 	sharedMark   int
@@ -92,6 +94,7 @@ type Interp struct {
 
 	builders map[*Val]*[]Piece
 	ioErrs   map[string]*ErrV
+	locks    *lockState
 }
 
 type Emit struct {
@@ -189,35 +192,62 @@ func (in *Interp) inconclusive(msg string) {
 // ---------------------------------------------------------------- monitors
 
 // noteAccess reports the use of memory that was handed back to a sync.Pool.
-func (in *Interp) noteAccess(o *Obj) {
+func (in *Interp) poolChoiceMax() int {
+	if in.poolMonitor {
+		return 4
+	}
+	return 2
+}
+
+func (in *Interp) noteAccess(o *Obj) { in.noteRead(o, nil) }
+
+func (in *Interp) noteRead(o *Obj, slot *Val) {
+	if in.w.usesSync {
+		in.lockTrack(o, slot, false)
+	}
 	if o != nil && o.Released && !in.releasedUse && in.poolMonitor {
 		in.releasedUse = true
 		in.recordViolation("assert", "monitor: memory handed back to a sync.Pool is used afterwards (another goroutine may own it by then)", in.ex.Model())
 	}
 }
 
-func (in *Interp) noteWrite(o *Obj) {
-	if o != nil {
-		in.noteAccess(o)
+func (in *Interp) noteWrite(o *Obj) { in.noteWriteAt(o, nil) }
+
+func (in *Interp) noteWriteAt(o *Obj, slot *Val) {
+	if o != nil && o.Released && !in.releasedUse && in.poolMonitor {
+		in.releasedUse = true
+		in.recordViolation("assert", "monitor: memory handed back to a sync.Pool is used afterwards (another goroutine may own it by then)", in.ex.Model())
+	}
+	held := 0
+	if in.w.usesSync {
+		held = in.locksHeld()
 	}
 	// writes by harness code count when the harness was called back by the
 	// library (a reader filling the library's buffer)
-	if o == nil || !(in.inLib() || in.libDepth > 0) || o.PoolOwned {
+	if o == nil || !(in.inLib() || in.libDepth > 0) || o.PoolOwned || in.runningPureInit {
+		// (a dependency's package initialiser run lazily by the engine ran,
+		// in reality, before main)
 		return
 	}
-	if in.initMark > 0 && (o.Global || o.ID <= in.initMark) {
+	if in.initMark > 0 && (o.Global || o.ID <= in.initMark) && held == 0 {
+		// (a write under a lock or inside a sync.Once is synchronised state of
+		// the package, e.g. a lazily built table; interference between packets
+		// through it is the business of the value comparisons)
 		in.globalWrites++
 		if len(in.writeSites) < 8 {
 			w, _ := in.libWhere()
 			in.writeSites = append(in.writeSites, "global:"+o.Site+"<-"+shortFn(w))
 		}
 	}
-	if in.sharedMark > 0 && (o.Global || o.ID <= in.sharedMark) {
+	if in.sharedMark > 0 && (o.Global || o.ID <= in.sharedMark) && held == 0 {
 		in.sharedWrites++
 		if len(in.writeSites) < 8 {
 			w, _ := in.libWhere()
 			in.writeSites = append(in.writeSites, "shared:"+o.Site+"<-"+shortFn(w))
 		}
+	}
+	if in.w.usesSync {
+		in.lockTrack(o, slot, true)
 	}
 }
 
@@ -374,6 +404,11 @@ func (in *Interp) callFunction(fn *ssa.Function, args []Val, env []Val) Val {
 	}
 	if intr, ok := intrinsics[name]; ok {
 		return intr(in, args)
+	}
+	if in.w.usesSync {
+		if r, ok := in.atomicCall(fn, name, args); ok {
+			return r
+		}
 	}
 	if fn.Blocks == nil {
 		panic(pathEnd{"inconclusive", "external function without intrinsic: " + name})
@@ -601,7 +636,7 @@ func (in *Interp) visit(fr *Frame, instr ssa.Instruction) {
 		if p.Slot == nil {
 			in.libPanic("nil-deref", "store")
 		}
-		in.noteWrite(p.Obj)
+		in.noteWriteAt(p.Obj, p.Slot)
 		store(p.Slot, fr.get(in, instr.Val))
 	case *ssa.Alloc:
 		et := instr.Type().(*types.Pointer).Elem()
@@ -1391,7 +1426,7 @@ func (in *Interp) unop(instr *ssa.UnOp, x Val) Val {
 		if p.Slot == nil {
 			in.libPanic("nil-deref", "load")
 		}
-		in.noteAccess(p.Obj)
+		in.noteRead(p.Obj, p.Slot)
 		return copyVal(*p.Slot)
 	case token.NOT:
 		return in.fromTerm(in.tt.Not(in.term(x.(Sc))))
@@ -1445,15 +1480,19 @@ func (in *Interp) conv(dst, src types.Type, x Val) Val {
 			if b, okb := sl.Elem().Underlying().(*types.Basic); okb && b.Kind() == types.Uint8 {
 				s = in.flat(s)
 				in.noteAlloc(len(s.B))
-				o := in.newObj(len(s.B), "conv")
+				cp := roundupsize(len(s.B))
+				o := in.newObj(cp, "conv")
 				for i, c := range s.B {
 					o.Cells[i] = c
+				}
+				for i := len(s.B); i < cp; i++ {
+					o.Cells[i] = Sc{W: 8}
 				}
 				if len(s.B) == 0 {
 					// []byte("") is a non-nil empty slice
 					return Slice{o, 0, 0, 0}
 				}
-				return Slice{o, 0, len(s.B), len(s.B)}
+				return Slice{o, 0, len(s.B), cp}
 			}
 		}
 	}
@@ -1543,7 +1582,15 @@ func (in *Interp) builtin(b *ssa.Builtin, args []Val) Val {
 			s.Len = need
 			return s
 		}
-		nc := max(need, 2*s.Cap)
+		es := valSize(add[0])
+		if sig, ok := b.Type().(*types.Signature); ok && sig.Params().Len() > 0 {
+			if st, ok := sig.Params().At(0).Type().Underlying().(*types.Slice); ok {
+				if n := in.sizeof(st.Elem()); n > 0 {
+					es = n
+				}
+			}
+		}
+		nc := max(need, growCap(s.Cap, need, es))
 		in.noteAlloc(nc * valSize(add[0]))
 		o := in.newObj(nc, "append")
 		for i := 0; i < s.Len; i++ {
